@@ -2,7 +2,6 @@ package checks
 
 import (
 	"regexp"
-	"bytes"
 	"fmt"
 	"net"
 	"os"
@@ -10,7 +9,6 @@ import (
 	"path/filepath"
 	"sort"
 	"strings"
-	"sync"
 	"sync/atomic"
 	"testing"
 	"time"
@@ -39,13 +37,34 @@ type proc struct {
 	tmpDir string
 }
 
-type syncBuf struct {
-	mu sync.Mutex
-	b  bytes.Buffer
+// syncBuf collects the output of a child process in a file. The child writes to the file descriptor directly: with a
+// pipe, a harness that is slow to drain it (a loaded machine) blocks the child inside its logger, and a proxy that is
+// stuck writing a log line looks exactly like a proxy that has stopped serving.
+type syncBuf struct{ f *os.File }
+
+func newSyncBuf() *syncBuf {
+	dir := os.Getenv("VERIF_OUTDIR")
+	if dir == "" {
+		dir = os.TempDir()
+	}
+	f, err := os.CreateTemp(dir, "child-*.log")
+	if err != nil {
+		f, _ = os.CreateTemp("", "child-*.log")
+	}
+	return &syncBuf{f: f}
 }
 
-func (s *syncBuf) Write(p []byte) (int, error) { s.mu.Lock(); defer s.mu.Unlock(); return s.b.Write(p) }
-func (s *syncBuf) String() string              { s.mu.Lock(); defer s.mu.Unlock(); return s.b.String() }
+func (s *syncBuf) File() *os.File { return s.f }
+
+func (s *syncBuf) String() string {
+	b, _ := os.ReadFile(s.f.Name())
+	return string(b)
+}
+
+func (s *syncBuf) Close() {
+	_ = s.f.Close()
+	_ = os.Remove(s.f.Name())
+}
 
 // Child processes are started with --bind 127.0.0.1:0: the kernel picks a free port atomically and the harness reads
 // it from the child's own "proxy is listening" log line. (Choosing a port in the harness and handing it to the child
@@ -99,7 +118,7 @@ func startBinary(args []string, env []string, yaml string) (*proc, error) {
 	if bin == "" {
 		return nil, fmt.Errorf("VERIF_BIN is not set (run through /verif/run)")
 	}
-	p := &proc{out: &syncBuf{}, done: make(chan struct{})}
+	p := &proc{out: newSyncBuf(), done: make(chan struct{})}
 	args = append([]string{"--bind", "127.0.0.1:0"}, args...)
 	if yaml != "" {
 		d, err := os.MkdirTemp("", "verif-c20-")
@@ -115,7 +134,7 @@ func startBinary(args []string, env []string, yaml string) (*proc, error) {
 	}
 	p.cmd = exec.Command(bin, args...)
 	p.cmd.Env = append([]string{"PATH=/usr/bin:/bin", "HOME=/tmp"}, env...)
-	p.cmd.Stdout, p.cmd.Stderr = p.out, p.out
+	p.cmd.Stdout, p.cmd.Stderr = p.out.File(), p.out.File()
 	if err := p.cmd.Start(); err != nil {
 		return nil, err
 	}
@@ -147,6 +166,7 @@ func (p *proc) kill() {
 	if p.tmpDir != "" {
 		os.RemoveAll(p.tmpDir)
 	}
+	p.out.Close()
 }
 
 // waitServing: the bind address accepts a connection and answers OPTIONS. Returns
